@@ -76,6 +76,7 @@ func NewMuxer(videoMeta *codec.VideoMeta, audioMeta *codec.AudioMeta, tagWriter 
 // WriteFrame .
 func (muxer *Muxer) WriteFrame(frame *codec.Frame) error {
 	muxer.recvQueue.Push(frame)
+	verifPoint("flvmux.pushed", muxer)
 	return nil
 }
 
